@@ -121,5 +121,33 @@ pub fn run(args: &Args) {
         run_history(&mut out, "C06", "loans", &mut rng, Mix::Loans, cw20, fees, funds, Source::Gen(len));
         out.count("random_history");
     }
+    // (3) router loans with native coins attached to the FlashLoan message (monitors only; the model's ORouterLoan carries
+    //     no attached funds): the router keeps nothing - the vault gains exactly the quoted fees, the initiator gets the rest back
+    for i in 0..(args.n / 10).max(12) {
+        let fees = gen_fees(&mut rng);
+        let mut w = match deploy(false, fees, FUNDS) { Ok(w) => w, Err(_) => continue };
+        for o in prelude() { w.exec(&o); }
+        let b = w.dump();
+        let z = (b.bal / (2 + rng.below(5) as u128)).max(1);
+        let q = z + floor_fee(z, b.fees.0) + floor_fee(z, b.fees.1) + floor_fee(z, b.fees.2);
+        let attached = match i % 3 { 0 => 100, 1 => q - z + 7, _ => 1 + rng.below128(1_000_000) };
+        // the payload passes the whole loan to the borrower contract, which pays the quoted amount back to the router out of
+        // the loan plus the initiator's attached coins
+        let script = vec![Act::Pay { to: I_ROUTER, amount: u(z) }];
+        let code = w.router_loan_with_funds(7, z, z, &script, attached);
+        let a = w.dump();
+        out.monitor_evals += 1;
+        out.count(if code == 0 { "router_funds:ok" } else { "router_funds:rejected" });
+        let replay = serde_json::json!({"kind": "vault_router FlashLoan with attached native coins", "fees": [fees.0.to_string(), fees.1.to_string(), fees.2.to_string()],
+            "loan": z.to_string(), "attached": attached.to_string(), "quoted_payback": q.to_string()});
+        if code == 0 {
+            let gain = a.bal as i128 - b.bal as i128;
+            let want = (floor_fee(z, b.fees.0) + floor_fee(z, b.fees.1)) as i128;
+            if gain != want { out.monitor_fail("C06", &format!("router loan with attached coins: the vault's balance changed by {} instead of the quoted protocol + flash-loan fees {}", gain, want), replay.clone()); }
+            if a.ab[I_ROUTER] != b.ab[I_ROUTER] { out.monitor_fail("C06", "the vault router kept funds after a loan", replay.clone()); }
+            let paid = b.ab[7] as i128 - a.ab[7] as i128;
+            if paid != (q - z) as i128 { out.monitor_fail("C06", &format!("the initiator paid {} for a loan whose fees are {} (attached coins not returned)", paid, q - z), replay.clone()); }
+        } else if a != b { out.monitor_fail("C06", "a reverted router loan changed balances or ledgers", replay.clone()); }
+    }
     out.finish();
 }
